@@ -72,6 +72,8 @@ type sut struct {
 	// original instance kept alive next to the one recreated from its own current root: C03 says further
 	// updates on the recreated trie behave exactly as on the original, so both receive every later update
 	shadow data.Trie
+	// the other live instances (RecreateKeep parks the instance it was called on; Switch re-addresses the calls)
+	parked []data.Trie
 }
 
 type replayer struct {
@@ -82,6 +84,7 @@ type replayer struct {
 	distinct *vtrace.Distinct
 	deep     *vtrace.Distinct // behaviours that mutate after a Recreate / Commit
 	drifts   int
+	multi    int // behaviours with more than one live instance (run a second time with full reads after every step)
 }
 
 func (rp *replayer) fail(s *sut, b []vtrace.Step, si int, prop, sig, what string) {
@@ -226,6 +229,61 @@ func (rp *replayer) compareAll(s *sut, b []vtrace.Step, si int, tr data.Trie, ex
 	return true
 }
 
+// parkedMaps reads the specification's contents of the other live instances (st.parked: sequence of pair sets)
+func parkedMaps(v interface{}) []map[string]int {
+	a, ok := v.([]interface{})
+	if !ok {
+		return nil
+	}
+	res := make([]map[string]int, len(a))
+	for i := range a {
+		res[i] = pairsOf(a[i])
+	}
+	return res
+}
+
+// auditInstances compares every live instance that is NOT currently addressed with the specification's map of
+// that instance: all keys (universe + never-written probes) and the root hash.  C03: instances are independent
+// views of the shared storage; what happened to another instance must not show here.
+func (rp *replayer) auditInstances(s *sut, b []vtrace.Step, si int, when string) bool {
+	exp := parkedMaps(b[si].St["parked"])
+	if len(exp) != len(s.parked) {
+		vtrace.Broken(fmt.Sprintf("step %d: specification has %d other instances, harness %d", si, len(exp), len(s.parked)))
+		return false
+	}
+	for j, tr := range s.parked {
+		ctx := fmt.Sprintf("%s: live instance %d (not addressed by this step)", when, j+1)
+		if !rp.compareAll(s, b, si, tr, exp[j], "C03", "C03/instances/contents-changed-by-another-instance", ctx) {
+			return false
+		}
+		h, e := rootHash(tr)
+		if e != "" {
+			rp.fail(s, b, si, "C03", "C03/instances/roothash-error", ctx+": RootHash: "+e)
+			return false
+		}
+		mk := mapKey(exp[j])
+		if len(exp[j]) == 0 {
+			if !bytes.Equal(h, trie.EmptyTrieHash) {
+				rp.fail(s, b, si, "C03", "C03/instances/root-changed-by-another-instance", fmt.Sprintf("%s: empty contents but root %x", ctx, h))
+				return false
+			}
+			continue
+		}
+		if want, ok := rp.part.byMap[mk]; ok && want != vtrace.Hex(h) {
+			rp.fail(s, b, si, "C03", "C03/instances/root-changed-by-another-instance",
+				fmt.Sprintf("%s: contents {%s} have root %s everywhere else in this run, this instance now reports %x", ctx, mk, want, h))
+			return false
+		}
+		if root, ok := s.roots[mk]; ok && !bytes.Equal(root, h) {
+			rp.fail(s, b, si, "C03", "C03/instances/root-changed-by-another-instance",
+				fmt.Sprintf("%s: contents {%s} were committed with root %x, this instance now reports %x", ctx, mk, root, h))
+			return false
+		}
+		rp.observeRoot(s, b, si, h, exp[j], ctx)
+	}
+	return true
+}
+
 func (rp *replayer) drift(what string, b []vtrace.Step) {
 	rp.drifts++
 	if rp.drifts <= 3 {
@@ -235,7 +293,10 @@ func (rp *replayer) drift(what string, b []vtrace.Step) {
 	}
 }
 
-func (rp *replayer) run(bi int, b []vtrace.Step) {
+// run executes one behaviour.  heavy = additionally read every live instance completely after every step (the reads
+// resolve collapsed nodes in memory, so the plain pass, which keeps the in-memory state the specification
+// describes, is always run as well).  Returns whether the behaviour ever had more than one live instance.
+func (rp *replayer) run(bi int, b []vtrace.Step, heavy bool) (multi bool) {
 	s := &sut{roots: map[string][]byte{}}
 	// the last record of an exported behaviour says what an inspection of the final state must find
 	var audit *vtrace.Step
@@ -245,6 +306,16 @@ func (rp *replayer) run(bi int, b []vtrace.Step) {
 	}
 	mutatedAfterReopen := false
 	for si, st := range b {
+		if heavy && si > 0 && b[si-1].A != "New" {
+			// full read of every instance after the previous step (expected values: that step's `st`)
+			prev := si - 1
+			if !rp.compareAll(s, b, prev, s.tr, pairsOf(b[prev].St["m"]), "C03", "C03/instances/addressed-instance-differs", fmt.Sprintf("after step %d", prev)) {
+				return
+			}
+			if !rp.auditInstances(s, b, prev, fmt.Sprintf("after step %d (%s)", prev, b[prev].A)) {
+				return
+			}
+		}
 		if st.A == "New" {
 			s.maxLevel = vtrace.Int(st.In["maxLevel"])
 			s.tsm = newStorage()
@@ -356,9 +427,49 @@ func (rp *replayer) run(bi int, b []vtrace.Step) {
 			}
 			s.tr = t2
 			s.recreated = true
+		case "RecreateKeep":
+			m := pairsOf(st.In["m"])
+			root, ok := s.roots[mapKey(m)]
+			if !ok {
+				vtrace.Broken(fmt.Sprintf("behaviour %d step %d: RecreateKeep of contents never committed", bi, si))
+				return
+			}
+			t2 := rp.reopen(s, b, si, root, m, "Recreate (original stays in use)", s.tr)
+			if t2 == nil {
+				return
+			}
+			s.parked = append(s.parked, s.tr)
+			s.tr = t2
+			s.shadow = nil
+			s.recreated = true
+			multi = true
+		case "Switch":
+			i := vtrace.Int(st.In["i"]) - 1
+			if i < 0 || i >= len(s.parked) {
+				vtrace.Broken(fmt.Sprintf("behaviour %d step %d: Switch to a missing instance", bi, si))
+				return
+			}
+			s.tr, s.parked[i] = s.parked[i], s.tr
+			s.shadow = nil
 		default:
 			vtrace.Broken("unknown action " + st.A)
 			return
+		}
+		// cheap check after every step in every pass: the root hash of the instances not addressed
+		if len(s.parked) > 0 && !heavy {
+			for j, tr := range s.parked {
+				exp := parkedMaps(st.St["parked"])
+				if j >= len(exp) {
+					break
+				}
+				if root, ok := s.roots[mapKey(exp[j])]; ok {
+					if h, e := rootHash(tr); e != "" || !bytes.Equal(h, root) {
+						rp.fail(s, b, si, "C03", "C03/instances/root-changed-by-another-instance",
+							fmt.Sprintf("after step %d (%s): live instance %d holds contents {%s} committed with root %x but reports %x %s", si, st.A, j+1, mapKey(exp[j]), root, h, e))
+						return
+					}
+				}
+			}
 		}
 	}
 	// ---- audit of the final state (expected values: the `st.m` of the last record)
@@ -382,6 +493,9 @@ func (rp *replayer) run(bi int, b []vtrace.Step) {
 		}
 	}
 	if !ok {
+		return
+	}
+	if len(s.parked) > 0 && !rp.auditInstances(s, b, last, "final audit") {
 		return
 	}
 	h1, e := rootHash(s.tr)
@@ -437,6 +551,10 @@ func (rp *replayer) run(bi int, b []vtrace.Step) {
 		s.roots[mk] = h2
 	}
 	rp.checkLeaves(s, b, last, s.tr, h2, exp, "final audit")
+	// a Commit of the addressed instance changes nothing in the others
+	if len(s.parked) > 0 && !rp.auditInstances(s, b, last, "final audit after Commit of the addressed instance") {
+		return
+	}
 	// the trie still answers after the commit (collapse at maxLevel)
 	if !rp.compareAll(s, b, last, s.tr, exp, "C03", "C03/after-commit", "final audit after Commit") {
 		return
@@ -491,6 +609,7 @@ func (rp *replayer) run(bi int, b []vtrace.Step) {
 			rp.deep.Add(fmt.Sprint(b[last-1].St, l.A, l.In, b[0].In))
 		}
 	}
+	return multi
 }
 
 func replay(path, keysArg string) {
@@ -521,7 +640,19 @@ func replay(path, keysArg string) {
 				vtrace.Broken(fmt.Sprintf("behaviour line %d: %v", n+1, e))
 				return
 			}
-			if p := safely(func() { rp.run(n, b) }); p != "" {
+			multi := false
+			if p := safely(func() { multi = rp.run(n, b, false) }); p != "" {
+				vtrace.Broken(fmt.Sprintf("harness panic in behaviour %d: %s", n, p))
+				return
+			}
+			if multi {
+				rp.multi++
+			}
+			if p := safely(func() {
+				if multi {
+					rp.run(n, b, true)
+				}
+			}); p != "" {
 				vtrace.Broken(fmt.Sprintf("harness panic in behaviour %d: %s", n, p))
 				return
 			}
@@ -547,4 +678,5 @@ func replay(path, keysArg string) {
 	vtrace.Stat("distinct_contents", len(rp.part.byMap))
 	vtrace.Stat("violations", rp.rep.total)
 	vtrace.Stat("drifts", rp.drifts)
+	vtrace.Stat("multi_instance_behaviours", rp.multi)
 }
